@@ -154,10 +154,26 @@ type certSpec struct {
 	Emails   []string `json:"emails,omitempty"`
 	Validity string   `json:"validity,omitempty"` // valid | expired | not-yet
 	WrongKey bool     `json:"wrong_key,omitempty"`
-	Near     bool     `json:"near_miss"`
+	// Extras: unrelated certificates the client puts into its Certificate message in addition
+	// to its own leaf (and the leaf's intermediates). They do not authenticate the client (no
+	// key is proven for them, they are not part of the leaf's chain), so the oracle ignores
+	// them: names are judged on the leaf only.
+	Extras []extraCert `json:"extra_certificates,omitempty"`
+	Near   bool        `json:"near_miss"`
 	// Judge: "accept" / "reject" = the oracle's verdict is binding; "" = the outcome is only
 	// recorded (the statement says nothing definite about this variant).
 	Unjudged string `json:"unjudged_because,omitempty"`
+}
+
+// extraCert: construction parameters of an additional certificate sent along with the leaf.
+type extraCert struct {
+	Issuer string   `json:"issuer"` // self | other | trusted (somebody else's public certificate, no key)
+	CN     string   `json:"cn"`
+	DNS    []string `json:"dns,omitempty"`
+	IPs    []string `json:"ips,omitempty"`
+	// BeforeIntermediates: placed right after the leaf, before the leaf's own intermediates
+	// (default: appended at the very end of the message).
+	BeforeIntermediates bool `json:"before_intermediates,omitempty"`
 }
 
 // serverOpts: the TLS option set of the server under test.
@@ -316,11 +332,55 @@ func (p *pki) mint(s certSpec) (*tls.Certificate, error) {
 	if err != nil {
 		return nil, err
 	}
-	c := &tls.Certificate{Certificate: append([][]byte{der}, extra...), PrivateKey: k}
+	var front, back [][]byte
+	for _, e := range s.Extras {
+		ed, err := p.mintExtra(e)
+		if err != nil {
+			return nil, err
+		}
+		if e.BeforeIntermediates {
+			front = append(front, ed)
+		} else {
+			back = append(back, ed)
+		}
+	}
+	list := [][]byte{der}
+	list = append(list, front...)
+	list = append(list, extra...)
+	list = append(list, back...)
+	c := &tls.Certificate{Certificate: list, PrivateKey: k}
 	if s.WrongKey {
 		c.PrivateKey = newKey() // the public certificate of somebody else, without its key
 	}
 	return c, nil
+}
+
+// mintExtra builds an unrelated certificate (its key is thrown away: the client never proves it).
+func (p *pki) mintExtra(e extraCert) ([]byte, error) {
+	k := newKey()
+	tmpl := &x509.Certificate{
+		SerialNumber: nextSerial(),
+		Subject:      pkix.Name{CommonName: e.CN},
+		NotBefore:    time.Now().Add(-time.Hour),
+		NotAfter:     time.Now().Add(48 * time.Hour),
+		KeyUsage:     x509.KeyUsageDigitalSignature,
+		ExtKeyUsage:  []x509.ExtKeyUsage{x509.ExtKeyUsageClientAuth},
+		DNSNames:     e.DNS,
+	}
+	for _, ip := range e.IPs {
+		tmpl.IPAddresses = append(tmpl.IPAddresses, net.ParseIP(ip))
+	}
+	signer, skey := tmpl, k
+	switch e.Issuer {
+	case "self":
+	case "other":
+		signer, skey = p.other.cert, p.other.key
+	case "trusted":
+		signer, skey = p.trusted.cert, p.trusted.key
+	default:
+		return nil, fmt.Errorf("bad extra issuer %q", e.Issuer)
+	}
+	return x509.CreateCertificate(rand.Reader, tmpl, signer, &k.PublicKey, skey)
 }
 
 // ---- variant generation ------------------------------------------------------------------------
@@ -533,6 +593,58 @@ func hostVariants(rng *mrand.Rand, host string, all bool) []certSpec {
 	return out
 }
 
+// extraVariants: the client authenticates with a leaf that chains to the trusted CA but does
+// NOT carry the allowed name, and sends along an unrelated certificate that does. The leaf that
+// authenticates the client lacks the name, so every one of these must be refused.
+func extraVariants(rng *mrand.Rand, o serverOpts, right certSpec) []certSpec {
+	wrong := certSpec{Present: true, Issuer: "trusted", Validity: "valid", Near: true, CN: "client-" + randWord(rng, 5)}
+	decoy := extraCert{CN: "decoy-" + randWord(rng, 4)}
+	nameless := wrong // the leaf carries no name of the relevant kind at all
+	what := "allowed-cn"
+	switch {
+	case o.AllowedCN != "":
+		decoy.CN = o.AllowedCN
+		nameless.CN = ""
+	case net.ParseIP(o.AllowedHostname) != nil:
+		what = "allowed-host-san"
+		ip4 := net.ParseIP(o.AllowedHostname).To4()
+		wrong.IPs = []string{net.IPv4(ip4[0], ip4[1], ip4[2], ip4[3]+1).String()}
+		decoy.IPs = []string{o.AllowedHostname}
+	default:
+		what = "allowed-host-san"
+		wrong.DNS = []string{"node-" + randWord(rng, 5) + ".other.test"}
+		decoy.DNS = []string{o.AllowedHostname}
+	}
+	with := func(class string, leaf certSpec, issuer string, before bool, extras ...extraCert) certSpec {
+		leaf.Class = class
+		if issuer != "" {
+			leaf.Issuer = issuer
+		}
+		for _, e := range extras {
+			e.BeforeIntermediates = before
+			leaf.Extras = append(leaf.Extras, e)
+		}
+		return leaf
+	}
+	ex := func(issuer string) extraCert { e := decoy; e.Issuer = issuer; return e }
+	unrelated := extraCert{Issuer: "self", CN: "bystander-" + randWord(rng, 4)}
+	out := []certSpec{
+		with("wrong-name-leaf+extra-selfsigned-"+what, wrong, "", false, ex("self")),
+		with("wrong-name-leaf+extra-foreign-ca-"+what, wrong, "", false, ex("other")),
+		with("wrong-name-leaf+extra-trusted-ca-"+what+"-no-key", wrong, "", false, ex("trusted")),
+		with("nameless-leaf+extra-selfsigned-"+what, nameless, "", false, ex("self")),
+		with("nameless-leaf+extra-foreign-ca-"+what, nameless, "", false, ex("other")),
+		with("wrong-name-leaf-via-intermediate+extra-"+what+"-before-intermediate", wrong, "inter-good", true, ex("self")),
+		with("wrong-name-leaf-via-intermediate+extra-"+what+"-after-intermediate", wrong, "inter-good", false, ex("self")),
+		with("wrong-name-leaf+extras-unrelated-then-"+what, wrong, "", false, unrelated, ex("self")),
+		with("wrong-name-leaf+extra-unrelated-only", wrong, "", false, unrelated),
+	}
+	// accept side (recorded only): the right credential stays right when a bystander is sent along
+	ok := with("canonical+extra-unrelated", right, "", false, unrelated)
+	ok.Near, ok.Unjudged = true, "accept side: only the canonical credential is judged for acceptance"
+	return append(out, ok)
+}
+
 // credentialsFor builds the full credential list for an option set: the canonical right one
 // first, then chain variants (with right names), then name variants (with a right chain).
 func credentialsFor(rng *mrand.Rand, o serverOpts, all bool) []certSpec {
@@ -552,8 +664,10 @@ func credentialsFor(rng *mrand.Rand, o serverOpts, all bool) []certSpec {
 	switch {
 	case o.AllowedCN != "":
 		out = append(out, cnVariants(rng, o.AllowedCN, all)...)
+		out = append(out, extraVariants(rng, o, right)...)
 	case o.AllowedHostname != "":
 		out = append(out, hostVariants(rng, o.AllowedHostname, all)...)
+		out = append(out, extraVariants(rng, o, right)...)
 	default:
 		// CA only: any name is fine; a couple of unrelated names on a right chain (accept side)
 		out = append(out, certSpec{Class: "any-name-right-chain", Present: true, Issuer: "trusted", Validity: "valid", CN: "",
